@@ -8,6 +8,9 @@
 (*   "odd"  another reply below 400 (e.g. 250 as greeting, 354 to RCPT)    *)
 (*   "4"    a 4xx reply        "5"  a 5xx reply                            *)
 (*   "drop" the server closes (or stalls until the client's time-out)      *)
+(*   "junk" a reply line that does not start with three digits (a stray    *)
+(*          empty line, a leading blank, "-ERR", "2:0 ok", ...): whatever  *)
+(*          it is, it is not an acceptance                                 *)
 (* single-line or multi-line makes no difference to the class.             *)
 (*                                                                         *)
 (* E: Ref(script) - what the statement of C09 demands, as the set of       *)
@@ -43,7 +46,7 @@ RefDet(s) ==
           ELSE {Res(rr, "K", FALSE)}
 
 \* every way of reading the "odd" replies of the phases where the statement leaves them open
-Readings(c) == IF c = "odd" THEN {"ok", "4"} ELSE {c}
+Readings(c) == IF c = "odd" THEN {"ok", "4"} ELSE IF c = "junk" THEN {"4", "5"} ELSE {c}
 Ref(s) ==
   UNION { RefDet([greet |-> s.greet, helo |-> s.helo, mail |-> m, rcpt |-> rc, data |-> d, dot |-> t]) :
           m \in Readings(s.mail), d \in Readings(s.data), t \in Readings(s.dot),
@@ -60,7 +63,8 @@ RemoteVerdict(s, rr, mr, dup) ==
      ELSE "PossibleDuplicateFlagWrong"
 
 \* ---- P: qmail-remote.c smtp(): codes are compared numerically; "odd" is any code below 400 that is not the expected one
-Code(c, expected) == IF c = "ok" THEN expected ELSE IF c = "odd" THEN (IF expected = 354 THEN 250 ELSE 354) ELSE IF c = "4" THEN 451 ELSE 553
+\* smtpcode(): a reply without three leading digits is given the value 599
+Code(c, expected) == IF c = "ok" THEN expected ELSE IF c = "odd" THEN (IF expected = 354 THEN 250 ELSE 354) ELSE IF c = "4" THEN 451 ELSE IF c = "junk" THEN 599 ELSE 553
 RECURSIVE PRcpt(_, _)
 PRcpt(rc, i) == IF i > Len(rc) \/ rc[i] = "drop" THEN <<>>
                 ELSE LET code == Code(rc[i], 250) IN <<(IF code >= 500 THEN "h" ELSE IF code >= 400 THEN "s" ELSE "r")>> \o PRcpt(rc, i + 1)
